@@ -365,6 +365,9 @@ def frameClass (attrs : Attrs) : Str :=
   let n := if n = sG then sPR ++ (attrs.lookup kPresStyle).getD [] else n
   replaceDot n
 
+/-- the (opaque) rest of the style sheet; `writeout` drops an empty string -/
+def emitCss (s : Str) (st : St) : St := if s.isEmpty then st else emit (.raw (.css s)) st
+
 /-- `if self.title == '': self.title = heading` (heading = the pending data) -/
 def titleFromHeading (st : St) : St := if st.title.isEmpty then { st with title := st.data } else st
 
@@ -376,7 +379,7 @@ def htmlBody (cfg : Cfg) (st : St) : M St := do
       let st := opentag nStyle [(aType, sTextCss)] true st
       let st := emit (.raw .cdataOpen) st
       let st := emit (.raw .defaultStyles) st
-      let st := if cfg.cssText.isEmpty then st else emit (.raw (.css cfg.cssText)) st
+      let st := emitCss cfg.cssText st
       let st := emit (.raw .cdataClose) st
       closetag nStyle true st
     else pure st)
